@@ -1,0 +1,9 @@
+//go:build verif
+
+// Contracts for the verification machinery in /verif (comment-only; compiled only with -tags verif).
+
+package docutil
+
+//@ func MarshalCanonical
+//@   trusted
+//@   results out, err
